@@ -78,6 +78,13 @@ T = {
             'exploration', '4/C18',
             'All 65536 two-byte inputs (every table index under every preceding byte), all lengths 0..300/2000, long buffers, both byte orders.',
             'R6 validated on the catalogue check values'),
+    'C19': ('M-STEP logical step counter (sys.monitoring LINE + backward-JUMP events of repository code) with a budget failpoint A + B*s^2 per call '
+            'and fitted growth exponents per (family, operation)',
+            'exploration', '4/C19',
+            'build/hash, order, to_boc x options, from_boc, copy ... on chains, random DAGs, wide trees, 2-/4-way ladders, diamonds; BoC headers with every count/size '
+            'field rewritten; TL vectors with rewritten counts, nested bytes, object lists, rewritten lengths, random bytes after ids; canonical, shared-subtree and '
+            'fuzzed dictionaries. "Terminates" is decided as bounded progress in logical steps.',
+            'steps = LINE events + backward jumps in repository code; C-extension work not counted'),
     'C20': ('metamorphic peer-symmetry monitor with both endpoints constructed + postcondition contract on AdnlChannel.encrypt (packet layout) + '
             'signature negatives by fault enumeration (all 512 bit flips)',
             'exploration', '4/C20',
